@@ -98,6 +98,45 @@ def observe(world, readonly):
     return dict(raised=raised, exc=exc, changed=changed, slots=slots, ro_hit=ro_hit)
 
 
+def expose_alias(world, obs, i, k):
+    """concrete history for stored state that aliases a caller array: the caller edits its own array in
+    place after the call; returns what changed in the object (None if nothing changed)"""
+    slot = obs["slots"][i]
+    before = [np.array(a, copy=True) for a in slot]
+    res0 = None
+    if world.result_probe is not None:
+        try:
+            res0 = np.array(world.result_probe(), copy=True)
+        except Exception:  # noqa: BLE001
+            res0 = None
+    for a in world.cells[k]:
+        r = root_of(a)
+        try:
+            r.flags.writeable = True
+            a.flags.writeable = True
+        except ValueError:
+            pass
+        if a.dtype == bool:
+            np.logical_not(a, out=a)
+        else:
+            a += 1
+    after = [np.array(a, copy=True) for a in slot]
+    changed = any(x.tobytes() != y.tobytes() for x, y in zip(before, after))
+    if not changed:
+        return None
+    out = dict(stored_before=[x.ravel()[:8].tolist() for x in before], stored_after=[x.ravel()[:8].tolist() for x in after])
+    if res0 is not None:
+        try:
+            res1 = np.asarray(world.result_probe())
+            out["result_changed"] = bool(res1.shape != res0.shape or not np.array_equal(res0, res1, equal_nan=True))
+            out["result_before"] = res0.ravel()[:6].tolist()
+            out["result_after"] = res1.ravel()[:6].tolist()
+        except Exception as e:  # noqa: BLE001
+            out["result_changed"] = True
+            out["result_after"] = "exception: %r" % (e,)
+    return out
+
+
 def compare(pred, obs, world):
     """-> (property_violation or None, tie_mismatch or None)"""
     names = world.cell_names
@@ -126,15 +165,21 @@ def compare(pred, obs, world):
             if not arrs:
                 continue
             if shares(o, arrs) != (p == k):
-                return None, "slot %s %s memory with %s, model says %s" % (
+                msg = "slot %s %s memory with %s, model says %s" % (
                     world.slot_name(i), "shares" if p != k else "does not share", names[k],
                     "alias" if p == k else "separate")
+                if p != k and i >= world.nret and k < world.nargs:
+                    world.unpredicted_aliases.append((i, k, msg))   # stored state is a view of a caller array
+                    continue
+                return None, msg
         for j in range(i + 1, len(ps)):
             if os_[j] is None:
                 continue
             if shares(o, os_[j]) != (p == ps[j]):
                 return None, "slots %s and %s: sharing observed %s, model %s" % (
                     world.slot_name(i), world.slot_name(j), shares(o, os_[j]), p == ps[j])
+    if world.unpredicted_aliases:
+        return None, world.unpredicted_aliases[0][2]
     return None, None
 
 
@@ -170,6 +215,10 @@ REGRESSION = [
     ("transform", [2, 0, 1, 1, 0, 2, 2]),
     ("array_fn", [1, 0, 1]),
     ("array_fn", [1, 0, 2]),
+    ("covmodel", [0, 1, 1, 0, 0]),       # temporal model built from a full-length float64 angles array (seed C14-7)
+    ("covmodel", [1, 1, 1, 1, 1]),       # angles setter of a temporal model
+    ("covmodel", [5, 1, 0, 0, 0]),       # dim setter of a temporal model (re-formats the stored angles)
+    ("covmodel", [0, 3, 1, 1, 1]),
 ]
 
 
@@ -201,6 +250,22 @@ def run_case(ctx, drv, name, cfg, rng, variant, readonly, stats):
     obs = observe(world, readonly)
     viol, tie = compare(pred, obs, world)
     stats["n"] += 1
+    if world.unpredicted_aliases and not viol:
+        exps = [(i, k, expose_alias(world, obs, i, k)) for i, k, _ in world.unpredicted_aliases]
+        exps = [e for e in exps if e[2] is not None]
+        exps.sort(key=lambda e: not e[2].get("result_changed", False))     # prefer a history that changes a result
+        if exps and len(ctx.violations) < 20:
+            i, k, exp = exps[0]
+            ctx.violation("probe: alias exposure %s cfg=%s" % (name, cfg),
+                          "%s %s: the stored %s is a view of the caller's %s; after the call the caller edits ITS array in place "
+                          "(no GSTools call) and the stored state changes%s" % (
+                              name, E.describe(name, cfg), world.slot_name(i), world.cell_names[k],
+                              "; a result computed from the stored state changes too" if exp.get("result_changed") else ""),
+                          dict(entry=name, cfg=cfg, variant=variant, readonly=readonly, options=E.describe(name, cfg),
+                               history=["call %s" % name, "caller: %s += 1 (in place, its own array)" % world.cell_names[k],
+                                        "read stored %s" % world.slot_name(i)], **exp),
+                          key=cfg_key(name, cfg) + ":alias:" + world.slot_name(i))
+            return
     if viol and len(ctx.violations) >= 20:
         stats["more"] = stats.get("more", 0) + 1     # enough replay files; keep counting
     elif viol:
@@ -265,6 +330,8 @@ def run(ctx, only=None):
                     # entry points with at most 2000 configurations, a rotating one for the large ones
                     small = E.CFG_COUNT[name] <= 2000
                     runs = [((i + off) % E.N_VARIANTS, False), ((i + off) % E.N_VARIANTS, True)]
+                    if name == "krige_call" and i % 2:
+                        runs = runs[:1]        # the most expensive entry: read-only mode on every second configuration
                     if small:
                         runs += [((i + off + 1) % E.N_VARIANTS, False)]
                         if E.CFG_COUNT[name] <= 500:
@@ -324,7 +391,7 @@ def replay(ctx, path):
 
 ENTRY_NAMES = ["vario_estimate", "vario_estimate_axis", "standard_bins", "field_call", "post_field",
                "apply_mean_norm_trend", "remove_trend_norm_mean", "transform", "srf_call", "krige_condition",
-               "krige_call", "condsrf_call", "fit_variogram", "normalizer", "generator", "array_fn"]
+               "krige_call", "condsrf_call", "fit_variogram", "normalizer", "generator", "array_fn", "covmodel"]
 DIMS = {
     "vario_estimate": [2, 3, 3, 2, 3, 2, 2, 2, 2, 2, 2, 2, 3],
     "vario_estimate_axis": [2, 3, 2, 2, 2],
@@ -342,6 +409,7 @@ DIMS = {
     "normalizer": [7, 6, 2, 2, 2, 3],
     "generator": [3, 2, 2, 2],
     "array_fn": [8, 2, 3],
+    "covmodel": [6, 4, 5, 5, 4],
 }
 DIGIT_NAMES = {
     "vario_estimate": ["pos", "field", "bin_edges", "mask", "direction", "angles", "latlon", "geo_scale!=1", "mean+trend+normalizer",
@@ -362,19 +430,21 @@ DIGIT_NAMES = {
     "normalizer": ["class", "method", "data", "nan", "out_of_range", "parameters"],
     "generator": ["generator", "pos", "nugget", "options"],
     "array_fn": ["function", "field", "numeric_args"],
+    "covmodel": ["operation", "model_kind", "angles", "anis", "len_scale"],
 }
 QUICK_BUDGET = {"vario_estimate": 3000, "krige_call": 400, "srf_call": 300, "krige_condition": 200, "condsrf_call": 200,
-                "field_call": 300, "fit_variogram": 60, "normalizer": 200, "transform": 360}
+                "field_call": 300, "fit_variogram": 60, "normalizer": 200, "transform": 360, "covmodel": 500}
 N_VARIANTS = 3
 CFG_COUNT = {k: int(np.prod(v)) for k, v in DIMS.items()}
 
 A_POS, A_FIELD, A_A, A_B, A_CPOS, A_CVAL, A_CEXT, A_CERR, A_KPOS, A_KMAT, A_KVAR, A_MEANF = range(12)
 C_FIELD, C_RAWF, C_RAWK, C_X, C_Y, C_Z = range(20, 26)
 G_PERIOD = 30
+M_ANIS, M_ANGLES = 40, 41
 ATTR_NAME = {A_POS: "pos", A_FIELD: "field", A_A: "a", A_B: "b", A_CPOS: "_cond_pos", A_CVAL: "_cond_val",
              A_CEXT: "_cond_ext_drift", A_CERR: "_cond_err", A_KPOS: "_krige_pos", A_KMAT: "_krige_mat",
              A_KVAR: "krige_var", A_MEANF: "mean_field", C_FIELD: "field", C_RAWF: "raw_field", C_RAWK: "raw_krige",
-             C_X: "x", C_Y: "y", C_Z: "z", G_PERIOD: "_period"}
+             C_X: "x", C_Y: "y", C_Z: "z", G_PERIOD: "_period", M_ANIS: "_anis", M_ANGLES: "_angles"}
 OBS_ATTRS = {
     "field_call": [A_POS, A_FIELD, A_A], "post_field": [A_POS, A_FIELD, A_A], "srf_call": [A_POS, A_FIELD, A_A],
     "transform": [A_FIELD, A_B],
@@ -382,6 +452,7 @@ OBS_ATTRS = {
     "krige_call": [A_POS, A_FIELD, A_KVAR, A_MEANF, A_A, A_B],
     "condsrf_call": [A_POS, C_FIELD, C_RAWF, C_RAWK, C_X, C_Y, C_Z, A_FIELD, A_KVAR],
     "generator": [G_PERIOD],
+    "covmodel": [M_ANIS, M_ANGLES],
 }
 
 
@@ -415,6 +486,9 @@ class World:
 
     def __init__(self, name, nargs):
         self.name = name
+        self.nargs = nargs
+        self.unpredicted_aliases = []
+        self.result_probe = None    # optional: () -> array computed from the stored state
         self.cells = [[] for _ in range(nargs)]
         self.cell_names = ["arg%d" % i for i in range(nargs)]
         self.obs_attrs = OBS_ATTRS.get(name, [])
@@ -911,6 +985,10 @@ def real_krige_condition(cfg, rng, variant):
         ce, h = mk_lay(rng.uniform(0.05, 0.2, n), 0 if err == 2 else 2, variant if err == 2 else 0)
         kw["cond_err"] = ce; w.arg(3, "cond_err", h)
     kw["fit_variogram"] = bool(fitv)
+    probe_pos = rng.uniform(0, 10, (2, 4))
+    getk = {}
+    w.result_probe = lambda: getk["k"]()(probe_pos, ext_drift=(np.linspace(0.0, 1.0, 4) if ext else None),
+                                         return_var=False, store=False)      # kriging from the stored conditions
     ckw = {}            # constructor-only numeric / flag options, varied with the realisation
     if variant == 1:
         ckw = dict(pseudo_inv_type="pinvh", exact=(err == 0))
@@ -926,6 +1004,8 @@ def real_krige_condition(cfg, rng, variant):
         for a in (A_CPOS, A_CVAL, A_CEXT, A_KPOS, A_KMAT):
             w.pre(a, [getattr(k0, ATTR_NAME[a])])
 
+        getk["k"] = lambda: k0
+
         def call():
             k0.set_condition(cp, cv, **kw)
             return []
@@ -937,6 +1017,7 @@ def real_krige_condition(cfg, rng, variant):
             def __getattr__(self, nm):
                 return getattr(holder["k"], nm)
         w.obj = Late()
+        getk["k"] = lambda: holder["k"]
 
         def call():
             holder["k"] = gs.krige.Krige(the_model(nugget=0.1 * variant), cp, cv, **kw, **ckw, **mtn_kwargs(mtn))
@@ -1133,6 +1214,91 @@ def real_generator(cfg, rng, variant):
     return w
 
 
+COV_OPS = ["constructor", "angles=", "anis=", "len_scale=", "integral_scale=", "dim="]
+
+
+# ---- CovModel construction and parameter setters
+def real_covmodel(cfg, rng, variant):
+    import gstools as gs
+    op, kind, ang, ani, ls = cfg
+    w = World("covmodel", 3)
+    temporal, latlon = kind in (1, 3), kind >= 2
+    cls = [gs.Gaussian, gs.Exponential, gs.Stable][variant]
+    if latlon:
+        dim = 3 + int(temporal)
+        ckw = dict(latlon=True, temporal=temporal)
+    elif temporal:
+        dim = [3, 2, 4][variant]
+        ckw = dict(spatial_dim=dim - 1, temporal=True)
+    else:
+        dim = [3, 2, 4][variant]
+        ckw = dict(dim=dim)
+    n_ang, n_ani = dim * (dim - 1) // 2, dim - 1
+
+    def param(vals_fn, d, exact, other_attr):
+        """array argument of layout digit d (1 exact float64, 2 short, 3 long, 4 other)"""
+        n = {1: exact, 2: max(exact - 1, 0), 3: exact + 2, 4: exact}[d]
+        vals = vals_fn(n)
+        if d == 4:
+            v = vals.tolist() if variant != 1 else vals.astype(np.float32)
+            return v, ([v] if isinstance(v, np.ndarray) else [])
+        if d == 1 and variant == 2 and other_attr is not None:
+            # the caller hands over the parameter array of ANOTHER model (e.g. Model(angles=m3.angles))
+            other = cls(dim=dim, **{other_attr: vals})
+            v = getattr(other, other_attr)
+            return v, [v]
+        v, h = mk_lay(vals, 0, variant % 2, reshape=False)
+        return v, h
+    args = {}
+    if ang:
+        args["angles"], h = param(lambda n: rng.uniform(0.1, 1.0, n), ang, n_ang, "angles"); w.arg(0, "angles", h)
+    if ani:
+        args["anis"], h = param(lambda n: rng.uniform(0.3, 0.9, n), ani, n_ani, "anis"); w.arg(1, "anis", h)
+    if ls:
+        n = 1 if ls == 2 else dim
+        lv = rng.uniform(1.0, 3.0, n)
+        if ls == 3:
+            lsv, h = (lv.tolist() if variant != 1 else lv.astype(np.float32)), []
+            h = [lsv] if isinstance(lsv, np.ndarray) else []
+        else:
+            lsv, h = mk_lay(lv, 0, variant % 2, reshape=False)
+        w.arg(2, "len_scale", h)
+    else:
+        lsv = 2.5
+    holder = {}
+
+    class Late:
+        field_names = []
+
+        def __getattr__(self, nm):
+            return getattr(holder["m"], nm)
+    w.obj = Late()
+    w.nret = 0
+    if op == 0:
+        def call():
+            holder["m"] = cls(len_scale=lsv, **ckw, **args)
+            return []
+    else:
+        m = cls(len_scale=2.0, anis=0.5, angles=0.2, **ckw)
+        holder["m"] = m
+        w.pre(M_ANIS, [m.anis]); w.pre(M_ANGLES, [m.angles])
+
+        def call():
+            if op == 1:
+                m.angles = args.get("angles", 0.3)
+            elif op == 2:
+                m.anis = args.get("anis", 0.7)
+            elif op == 3:
+                m.len_scale = lsv
+            elif op == 4:
+                m.integral_scale = lsv
+            else:
+                m.dim = dim if latlon else (dim + 1 if dim < 4 else dim - 1)
+            return []
+    w.call = call
+    return w
+
+
 REALISERS = {
     "vario_estimate": real_vario_estimate, "vario_estimate_axis": real_vario_estimate_axis,
     "standard_bins": real_standard_bins, "field_call": real_field_call, "post_field": real_post_field,
@@ -1141,6 +1307,7 @@ REALISERS = {
     "transform": real_transform, "srf_call": real_srf_call, "krige_condition": real_krige_condition,
     "krige_call": real_krige_call, "condsrf_call": real_condsrf_call, "fit_variogram": real_fit_variogram,
     "normalizer": real_normalizer, "generator": real_generator, "array_fn": real_array_fn,
+    "covmodel": real_covmodel,
 }
 
 
